@@ -36,7 +36,10 @@ GoodFrom(e) ==
   LET t == e.tag  c == e.c  lp == LangPart(t) IN
   IF t \in AllTags /\ t # Und THEN T(c) = t
   ELSE IF lp \notin AllTags \/ lp = Und THEN c = 0                   \* unknown language -> neutral
-  ELSE T(c) = lp                                                     \* known language, unknown region: never another region
+  ELSE /\ T(c) = lp                                                  \* known language, unknown region: never another region
+       \* ... and if from_tag tells this tag apart from the bare language (another code), the library knows the
+       \* tag: it is a table tag and must map back to itself - which tag() then contradicts
+       /\ (lp \in DOMAIN F => c = F[lp])
 GoodRef == \A k \in 1..Len(WellKnown) : T(WellKnown[k][1]) = WellKnown[k][2] /\ WellKnown[k][2] \in DOMAIN F /\ F[WellKnown[k][2]] = WellKnown[k][1]
 BadRefs == {WellKnown[k][1] : k \in {j \in 1..Len(WellKnown) : ~(T(WellKnown[j][1]) = WellKnown[j][2] /\ WellKnown[j][2] \in DOMAIN F /\ F[WellKnown[j][2]] = WellKnown[j][1])}}
 
